@@ -565,8 +565,16 @@ func bodyFor(r role, lbl string, n int) (data []byte, pageItems int, ok bool) {
 			return g.data, -1, true
 		}
 	}
+	if code, ok := strings.CutPrefix(lbl, "errc-"); ok {
+		// a well-formed error answer with the given code: the answers a registry really gives
+		return []byte(fmt.Sprintf(`{"errors":[{"code":%q,"message":"as the registry says","detail":{"why":"scripted"}}]}`, code)), -1, true
+	}
 	return nil, -1, false
 }
+
+// errorCodes: the codes of the distribution specification (and two that are not in it).
+var errorCodes = []string{"BLOB_UNKNOWN", "BLOB_UPLOAD_INVALID", "BLOB_UPLOAD_UNKNOWN", "DIGEST_INVALID", "MANIFEST_BLOB_UNKNOWN", "MANIFEST_INVALID", "MANIFEST_UNKNOWN",
+	"NAME_INVALID", "NAME_UNKNOWN", "SIZE_INVALID", "UNAUTHORIZED", "DENIED", "UNSUPPORTED", "TOOMANYREQUESTS", "RANGE_INVALID", "UNKNOWN", "MADE_UP_CODE", ""}
 
 // bodyLabels lists the body classes enumerated for a role.
 func bodyLabels(r role) []string {
@@ -1314,6 +1322,19 @@ func systematic(scs []*scenario) []*caseDef {
 						}
 					}
 				}
+				// G: well-formed error answers with every code there is, under the statuses registries use for them
+				for ci, code := range errorCodes {
+					for si, st := range []int{400, 404, 416, 403, 500} {
+						if (ci+si+k)%2 == 1 {
+							continue // half of the product
+						}
+						e := base()
+						e.status = st
+						e.setBody("errc-"+code, n)
+						e.set("Content-Type", "application/json")
+						mk("error-code", e)
+					}
+				}
 				// F: redirects that net/http follows, re-sending what the client built (307/308 keep method and
 				// body and need the request's GetBody for that; the others turn most methods into GET)
 				for _, st := range []int{301, 302, 303, 307, 308} {
@@ -1372,6 +1393,9 @@ func genSpec(rng *rand.Rand, r role, n int) *spec {
 		}
 		s.status = pick(rng, statuses)
 		s.setBody(pick(rng, bodyLabels(r)), n)
+		if rng.IntN(6) == 0 {
+			s.setBody("errc-"+pick(rng, errorCodes), n)
+		}
 		if rng.IntN(2) == 0 {
 			s.set("Content-Type", "application/json")
 		}
